@@ -59,7 +59,7 @@ class C09(scen.WorldProp):
                   "out (arbitrary states and histories). correspondence: timed sessions in waiting mode with human "
                   "bands that are late by ms..seconds, early within the row, a stroke ahead (double clicks), plain "
                   "hunt / place notation with Go; oracle: at every Wheatley strike of row r, every human bell due "
-                  "earlier in r has rung r+1 times and every human bell r times. non-trivial = humans held Wheatley up")
+                  "earlier in r has rung r+1 times and every human bell r times. two-touch sessions in which a human strikes once more after the first touch has stood (Look To forgets who was early: look_to_forgets_early, first_row_arms). non-trivial = humans held Wheatley up")
 
     def cases(self, rng, tier):
         n = 200 if tier == "quick" else 2000
